@@ -23,7 +23,10 @@ from interface_meta import InterfaceMeta
 
 from formulaic.errors import DataMismatchWarning
 from formulaic.materializers.types import FactorValues
-from formulaic.utils.cast import narwhals_series_to_pandas
+from formulaic.utils.cast import (
+    narwhals_series_to_pandas,
+    pandas_arrow_dictionary_to_categorical,
+)
 from formulaic.utils.null_handling import drop_rows as drop_nulls
 from formulaic.utils.sentinels import UNSET
 from formulaic.utils.sparse import categorical_encode_series_to_sparse_csc_matrix
@@ -78,7 +81,9 @@ def C(
         if nw.dependencies.is_narwhals_series(values):
             # iterating a narwhals series would lose its declared categories
             values = narwhals_series_to_pandas(values)
-        values = pandas.Series(values)
+        # (before rows are dropped: an Arrow dictionary column that has lost all
+        # of its rows no longer knows its categories)
+        values = pandas_arrow_dictionary_to_categorical(pandas.Series(values))
         values = drop_nulls(values, drop_rows)  # positional; index labels may repeat
         return encode_contrasts(
             values,
@@ -140,6 +145,8 @@ def encode_contrasts(  # pylint: disable=dangerous-default-value  # always repla
     )  # TODO: Is this too early to provide useful feedback to users?
     if isinstance(data, FactorValues):  # wrapped numpy arrays are problematic
         data = data.__wrapped__
+    # Arrow dictionary columns of pandas carry their declared categories
+    data = pandas_arrow_dictionary_to_categorical(data)
 
     if contrasts is None:
         contrasts = TreatmentContrasts()
